@@ -245,6 +245,16 @@ func CryptoDoc(kind, marker string, container string) []byte {
 		fs := d.Add(fmt.Sprintf("<</Type/Filespec/F(%s-file.txt)/UF(%s-file.txt)/Desc(%s-desc)/EF<</F %s>>>>", marker, marker, marker, Ref(ef)))
 		nt := d.Add(fmt.Sprintf("<</Names[(%s-key) %s]>>", marker, Ref(fs)))
 		d.PatchCatalog(fmt.Sprintf("/Names<</EmbeddedFiles %s>>", Ref(nt)))
+	case "streamdict":
+		// strings that live in the dictionary part of stream objects: embedded file /Params, form XObject
+		// /LastModified and private data, a hex string in a content stream's dictionary
+		ef := d.AddStream(fmt.Sprintf("<</Type/EmbeddedFile/Params<</CheckSum(%s-checksum)/ModDate(D:20240101000000Z)/Size 5>>>>", marker), []byte(marker+"-attachment-bytes"))
+		fs := d.Add(fmt.Sprintf("<</Type/Filespec/F(%s-file.txt)/UF(%s-file.txt)/EF<</F %s>>>>", marker, marker, Ref(ef)))
+		nt := d.Add(fmt.Sprintf("<</Names[(%s-key) %s]>>", marker, Ref(fs)))
+		d.PatchCatalog(fmt.Sprintf("/Names<</EmbeddedFiles %s>>", Ref(nt)))
+		pgs := d.PageNrs()
+		fx := d.AddStream(fmt.Sprintf("<</Type/XObject/Subtype/Form/BBox[0 0 10 10]/LastModified(%s-lastmodified)/VerifPrivate<</Private(%s-private)/PrivateHex<%x>>>>>", marker, marker, marker+"-hexprivate"), []byte("0 0 m 5 5 l S\n"))
+		d.AddResources(pgs[0], fmt.Sprintf("/XObject<</FX %s>>", Ref(fx)))
 	case "outline":
 		ol := d.Reserve()
 		it := d.Add(fmt.Sprintf("<</Title(%s-bookmark)/Parent %s/Dest[%s /Fit]>>", marker, Ref(ol), firstPageRef(d)))
@@ -307,7 +317,7 @@ func CryptoDoc(kind, marker string, container string) []byte {
 }
 
 // CryptoKinds lists the location kinds of CryptoDoc.
-var CryptoKinds = []string{"plain", "nested", "annotation", "attachment", "outline", "xmp", "filters", "blockaligned", "sigdict", "sigdict-untyped"}
+var CryptoKinds = []string{"plain", "nested", "annotation", "attachment", "outline", "xmp", "filters", "blockaligned", "sigdict", "sigdict-untyped", "streamdict"}
 
 // FormDoc builds small AcroForm documents by hand.
 //   "flat-own-da":      AcroForm without /DA; one top-level text field carrying its own /DA
